@@ -112,6 +112,20 @@ def gen(ctx):
         strs = [variant(r.choice(base)) for _ in range(n)]
         if "c" in fl: strs = [[c for c in x if c != 0] for x in strs]
         cases.append(["cf sort %s %s %s" % (fl, loc, " ".join(hx(CR.enc(s)) for s in strs))])
+    # long operands whose folding outgrows their UTF-8 size (U+0390 and U+03B0: 2 bytes, 3 code points folded), equal up to
+    # a short tail: the folded copies have to grow while they are being built
+    grow = [0x390, 0x3B0]
+    tails = [[0x62], [0x41], [0x61, 0x62], [], [0x5A], [0x3C3], [0x42, 0x61]]
+    for _ in range(60 if quick else 3000):
+        k = r.choice([6, 8, 10, 11, 12, 16, 24, 40, 100])
+        P = [r.choice(grow) if r.random() < 0.9 else r.choice([0xDF, 0xFB03, 0x61, 0x130]) for _ in range(k)]
+        strs = [P + r.choice(tails) for _ in range(r.choice([2, 3, 5, 8]))]
+        if r.random() < 0.3: strs.append(rs(3))
+        fl = r.choice(["f", "f", "fr", "fc"]); loc = r.choice(["-", "-", "tr"])
+        hs = [hx(CR.enc(x)) for x in strs]
+        lines = ["cf sort %s %s %s" % (fl, loc, " ".join(hs))]
+        lines += ["cf cmp %s %s %s %s" % (fl, loc, x, y) for x in hs[:3] for y in hs[:3]]
+        cases.append(lines)
     return cases
 
 
